@@ -41,6 +41,8 @@ func checkC13(c *Ctx) {
 	p := u.Pkgs["pkg/syntax/zh"]
 	info := p.TypesInfo
 	typeConsts := constsWithPrefix(p, "Type")
+	u.buildSSA()
+	ruleGetCharVerbatim(c, u, "C13.getchar")
 
 	// ---- C13.verbatim: between the string token and the text value the characters pass through unchanged
 	// (conversions only - no slicing, trimming or rebuilding at any hand-over)
